@@ -5,9 +5,13 @@
 (*                                                                          *)
 (*  reset  fkeys            the driver's functional-key table (must equal   *)
 (*                          FKeyNames: identities are positions in it)      *)
-(*  key    enc facts got other   the report (structured), character facts,  *)
-(*                          the Key events read from Events() before the    *)
-(*                          sentinel, number of other events                *)
+(*  key    enc then facts got other   the report (structured) and the       *)
+(*                          reports injected right behind it in the same    *)
+(*                          read (mostly none), character facts, the Key    *)
+(*                          events read from Events() before the sentinel,  *)
+(*                          number of other events.  One event per report,  *)
+(*                          each a meaning of its report.  An SS3 report    *)
+(*                          with a final no table assigns is not judged.    *)
 (*  match  bk bms res facts Key.Matches(bk, bms[i]) = res[i]                *)
 (*  mstr   bk bm res facts  Key.MatchString(<string built from bk, bm>)     *)
 (*  self   res              Key.MatchString(Key.String())                   *)
@@ -38,24 +42,39 @@ Diff(g, x) ==
   \o (IF g.type # x.type THEN "type+" ELSE "") \o (IF g.text # x.text THEN "text+" ELSE "")
 
 EncKind(e) ==
-  IF e.k # "csi" THEN e.k
+  IF e.k = "esc" /\ e.b \in EscIntermediates THEN "esc-intermediate"
+  ELSE IF e.k = "ss3" /\ e.b \in KeypadFinals THEN "ss3-keypad"
+  ELSE IF e.k # "csi" THEN e.k
   ELSE IF e.fin = 117 THEN "csi-u" ELSE IF e.fin = 126 THEN "csi-tilde" ELSE "csi-letter"
 
 KeyClass(k) == IF IsCP(k.code) THEN "cp" ELSE "fk"
 
+\* the reports of an item in the order injected, and the name of their kinds
+Reports(e) == <<e.enc>> \o e.then
+RECURSIVE KindsFrom(_, _)
+KindsFrom(rs, i) == IF i > Len(rs) THEN "" ELSE "+" \o EncKind(rs[i]) \o KindsFrom(rs, i + 1)
+Kinds(e) == EncKind(e.enc) \o KindsFrom(e.then, 1)
+
+Unjudged(e) == e.enc.k = "ss3" /\ e.enc.b \in SS3Unassigned /\ Len(e.then) = 0
+
 OnKey(e) ==
+  LET rs == Reports(e) IN
   IF ~FactsOK(e.facts) THEN
       /\ Rej(e, "facts", [enc |-> e.enc])
       /\ failed' = "item" /\ UNCHANGED cur
-  ELSE IF ~InDomain(e.enc) THEN
-      /\ Rej(e, "domain", [enc |-> e.enc])
+  ELSE IF Unjudged(e) THEN
+      failed' = "item" /\ UNCHANGED cur        \* nothing to say, and nothing to probe
+  ELSE IF \E i \in 1..Len(rs) : ~InDomain(rs[i]) THEN
+      /\ Rej(e, "domain", [enc |-> e.enc, then |-> e.then])
       /\ failed' = "item" /\ UNCHANGED cur
-  ELSE IF Len(e.got) # 1 \/ e.other # 0 THEN
-      /\ Rej(e, "count", [kind |-> EncKind(e.enc), n |-> Len(e.got), other |-> e.other, enc |-> e.enc, got |-> e.got])
+  ELSE IF Len(e.got) # Len(rs) \/ e.other # 0 THEN
+      /\ Rej(e, "count", [kind |-> EncKind(e.enc) \o (IF Len(e.then) > 0 THEN "+then" ELSE ""), kinds |-> Kinds(e), n |-> Len(e.got), other |-> e.other, enc |-> e.enc, then |-> e.then, got |-> e.got])
       /\ failed' = "item" /\ UNCHANGED cur
-  ELSE IF e.got[1] \notin Meanings(e.enc, e.facts) THEN
-      /\ Rej(e, "decode", [kind |-> EncKind(e.enc), diff |-> Diff(e.got[1], Canon(e.enc, e.facts)),
-                           enc |-> e.enc, got |-> e.got[1], want |-> Canon(e.enc, e.facts)])
+  ELSE IF \E i \in 1..Len(rs) : e.got[i] \notin Meanings(rs[i], e.facts) THEN
+      LET i == CHOOSE j \in 1..Len(rs) : e.got[j] \notin Meanings(rs[j], e.facts) /\
+                                          \A h \in 1..(j - 1) : e.got[h] \in Meanings(rs[h], e.facts) IN
+      /\ Rej(e, "decode", [kind |-> IF i = 1 THEN EncKind(rs[1]) ELSE EncKind(rs[i - 1]) \o "+" \o EncKind(rs[i]), pos |-> i, diff |-> Diff(e.got[i], Canon(rs[i], e.facts)),
+                           enc |-> rs[i], got |-> e.got[i], want |-> Canon(rs[i], e.facts)])
       /\ failed' = "item" /\ UNCHANGED cur
   ELSE
       /\ cur' = e.got[1]
